@@ -291,6 +291,7 @@ def memo_form(fn):
     """Memoising getter?  Recognised layouts (S = a slot of self):
          if <S absent>: <compute, storing self.S> ; return self.S
          if <S present>: return self.S ; <compute, storing self.S> ; return self.S
+         try: return self.S  except AttributeError: pass|<compute> ; <compute, storing self.S> ; return self.S
        absent: `not hasattr(self, 'S')`, `self.S is None`; present: the negations.
        -> {"slot": S, "compute": [statements], "store_stmts": [...]} or None"""
     body = [s for s in fn.body if not (isinstance(s, ast.Expr) and isinstance(s.value, ast.Constant))]
@@ -325,6 +326,18 @@ def memo_form(fn):
         return out
 
     first = body[0]
+    if isinstance(first, ast.Try) and len(first.body) == 1 and isinstance(first.body[0], ast.Return) and isinstance(first.body[0].value, ast.Attribute) and norm(first.body[0].value.value) == "self" and len(first.handlers) == 1 and not first.orelse and not first.finalbody:
+        h = first.handlers[0]
+        if h.type is not None and norm(h.type) in ("AttributeError", "(AttributeError,)"):
+            slot = first.body[0].value.attr
+            rest = [x for x in h.body if not isinstance(x, ast.Pass)] + body[1:]
+            if rest and stores(rest, slot):
+                last = rest[-1]
+                ok_last = returns_slot(last, slot)
+                if not ok_last and isinstance(last, ast.Return) and isinstance(last.value, ast.Name):
+                    ok_last = any(isinstance(s_.value, ast.Name) and s_.value.id == last.value.id for s_ in stores(rest, slot) if hasattr(s_, "value"))
+                if ok_last:
+                    return {"slot": slot, "compute": list(rest[:-1]), "store_stmts": stores(rest, slot)}
     if isinstance(first, ast.If) and not first.orelse:
         st = slot_test(first.test)
         if st is not None:
